@@ -167,11 +167,21 @@ def impl_builtin(case):
     X = np.array(case["X"], dtype=float)
     n, m = case["n"], case["m"]
     try:
-        det = CBS(_mk(case["score"]), threshold_scale=case["scale"], level=case["level"], min_segment_length=m,
-                  max_interval_length=case["mx"], growth_factor=case["g"]).fit(core.wrap_container(case, X))
-        # ndarray or DataFrame; the fitted detector may have been used on other data with the same index before
+        scale = case["scale"]
+        if scale is not None:  # aim the fitted threshold just beside one of the candidate scores
+            probe = CBS(_mk(case["score"]), threshold_scale=0.0, min_segment_length=m, max_interval_length=case["mx"],
+                        growth_factor=case["g"])
+            _, nf = core.fit_for(probe, case, X, reps=1)
+            probe.predict(core.wrap_container(case, X))
+            bs = core.borderline_scale(case, probe.scores["score"], float(CBS.get_default_threshold(nf, case["p"], case["mx"])))
+            scale = scale if bs is None else bs
+        det = CBS(_mk(case["score"]), threshold_scale=scale, level=case["level"], min_segment_length=m,
+                  max_interval_length=case["mx"], growth_factor=case["g"])
+        # ndarray or DataFrame; fitted on the data, on a series of another length, or on an object overwritten in place
+        # afterwards; the fitted detector may have been used on other data with the same index before
+        data, nfit = core.fit_for(det, case, X, reps=1)  # circular binary segmentation is cubic in the interval length
         core.prior_use(det, case, X)
-        y = det.predict(core.wrap_container(case, X))
+        y = det.predict(data)
         T = det.scores
         ivs = [(int(a), int(b)) for a, b in zip(T["interval_start"], T["interval_end"])]
         sc = to_local_anomaly_score(_mk(case["score"])).fit(X)
@@ -183,10 +193,10 @@ def impl_builtin(case):
                 for (a, b), v in zip(cands, vals):
                     tab[f"{s},{a},{b},{e}"] = float(v)
         an = [(int(i.left), int(i.right)) for i in y["ilocs"]]
-        return {"outcome": "ok", "thr": float(det.threshold_), "ivs": ivs,
+        return {"outcome": "ok", "thr": float(det.threshold_), "ivs": ivs, "scale": scale,
                 "rows": [((int(a), int(b)), float(c)) for a, b, c in
                          zip(T["argmax_anomaly_start"], T["argmax_anomaly_end"], T["score"])],
-                "anoms": an, "tab": tab, "default_thr": float(CBS.get_default_threshold(n, case["p"], case["mx"]))}
+                "anoms": an, "tab": tab, "default_thr": float(CBS.get_default_threshold(nfit, case["p"], case["mx"]))}
     except Exception as ex:
         return {"outcome": "other:" + type(ex).__name__, "msg": str(ex)[:200]}
 
@@ -205,7 +215,7 @@ def oracle_builtin(case, r):
     for a, b in r["anoms"]:
         if not (0 < a and b < n and b - a >= m):
             return f"anomaly [{a},{b}) is not strictly inside the data with length >= {m}"
-    if case["scale"] is not None and abs(r["thr"] - case["scale"] * r["default_thr"]) > 1e-12 * (1 + abs(r["thr"])):
+    if r["scale"] is not None and abs(r["thr"] - r["scale"] * r["default_thr"]) > 1e-12 * (1 + abs(r["thr"])):
         return f"threshold_ {r['thr']} is not threshold_scale x default"
     return None
 
